@@ -149,6 +149,13 @@ def r05c(ctx, run):
                 if di is None:
                     run.finding(fn.qual, "unclosed-scope", fn.file, cnode["ln"], "child scope opened at line %d is not closed in the same block" % cnode["ln"])
                     continue
+                dst = blk["s"][di]
+                de = dst.get("e") if dst.get("k") in ("expr", "semi") else None
+                if not (isinstance(de, dict) and de.get("k") == "mcall" and de["m"] == "destroy_current_scope"):
+                    run.finding(fn.qual, "conditionally-closed-scope", fn.file, dst["ln"],
+                                "child scope opened unconditionally at line %d is closed only inside a nested construct (line %d): on the other paths the scope stays open, the enclosing "
+                                "block's pop then removes the wrong scope and the block's bindings stay visible after it ends" % (cnode["ln"], dst["ln"]))
+                    continue
                 esc = has_escape(blk["s"][ci + 1:di])
                 run.check(esc is None, fn.site(cnode["ln"]), "%s: scope opened line %d closed line %d, no early exit between" % (fn.qual, cnode["ln"], blk["s"][di]["ln"]),
                           fn.qual, "escape", fn.file, esc["ln"] if esc else cnode["ln"], "an early return/? between scope push and pop leaves the scope open")
